@@ -279,6 +279,30 @@ func (cs *caseState) classifyBlocked(v *verdict, ev *blockEv) {
 		len(ev.sel), ev.span.Round(time.Millisecond), ev.beats, ev.idle.Round(time.Millisecond), ev.idleBeats, cs.T, stackExcerpt(ev.sel, 2))
 }
 
+// callerFrames: function names of the innermost frames of up to n outstanding callers of this case (diagnosis only).
+func (cs *caseState) callerFrames(n, depth int) string {
+	callers := cs.callerGids()
+	var sb strings.Builder
+	k := 0
+	for _, g := range dumpGoroutines() {
+		if !callers[g.ID] || k >= n {
+			continue
+		}
+		k++
+		fr := frames(g.Stack)
+		if len(fr) > depth {
+			fr = fr[:depth]
+		}
+		for i, f := range fr {
+			if j := strings.LastIndexByte(f, '('); j > 0 {
+				fr[i] = f[:j]
+			}
+		}
+		fmt.Fprintf(&sb, "[goroutine %d %s: %s] ", g.ID, g.State, strings.Join(fr, " < "))
+	}
+	return sb.String()
+}
+
 // classifyNoProgress: nothing recognisable is blocked, yet calls are outstanding and no event at all happened for idleCap
 // while the process ran (>= idleCapBeats heartbeats): the request did not end within its timeout and retry budget. The
 // stacks of the outstanding callers are the evidence.
